@@ -92,9 +92,17 @@ func KsMakeGeo(kind int, args []string) (bool, string, error) {
 			o = geojson.NewPoint(geometry.Point{X: x, Y: y})
 		}
 	case 2:
+		v := [4]float64{pf(args[0]), pf(args[1]), pf(args[2]), pf(args[3])}
+		// cmdSET orders the two corners per axis
+		if v[0] > v[2] {
+			v[0], v[2] = v[2], v[0]
+		}
+		if v[1] > v[3] {
+			v[1], v[3] = v[3], v[1]
+		}
 		o = geojson.NewRect(geometry.Rect{
-			Min: geometry.Point{X: pf(args[1]), Y: pf(args[0])},
-			Max: geometry.Point{X: pf(args[3]), Y: pf(args[2])},
+			Min: geometry.Point{X: v[1], Y: v[0]},
+			Max: geometry.Point{X: v[3], Y: v[2]},
 		})
 	case 3:
 		lat, lon := geohash.Decode(args[0])
